@@ -1,0 +1,82 @@
+//go:build verif
+
+package federation
+
+// Machine-checked contracts for the gocv verifier (/verif/DESIGN.md). Comments only.
+// Family contracts for the code generated from federation.gotpl (instantiated by gocv on the federation probes
+// regenerated from this working tree; classification by function name: /verif/engine/family.go).
+
+//@ trusted (*github.com/99designs/gqlgen/graphql.OperationContext).Error(ctx, err)
+//@   nopanic
+//@ trusted (*github.com/99designs/gqlgen/graphql.OperationContext).Recover(ctx, err) (e)
+//@   nopanic
+//@ trusted (*sync.WaitGroup).Add(n)
+//@   nopanic
+//@   pure
+//@ trusted (*sync.WaitGroup).Done()
+//@   nopanic
+//@   pure
+//@ trusted (*sync.WaitGroup).Wait()
+//@   nopanic
+//@   pure
+//@ trusted errors.New(text) (err)
+//@   ensures err != nil
+//@   nopanic
+//@   pure
+//@ trusted fmt.Errorf(format, a) (err)
+//@   ensures err != nil
+//@   nopanic
+//@   pure
+//@ trusted fmt.Sprintf(format, a) (s)
+//@   nopanic
+//@   pure
+
+// Every group entry records the position of its representation in the request and that very representation;
+// a representation without a string __typename is reported once and belongs to no group. (Entries are appended
+// once per loop index, so indices are pairwise distinct across all groups.)
+//@ family fedrepgroups [C20]
+//@   at! `append(repsMap[typeName], EntityWithIndex{...` requires arg1.index == idx1 && arg1.entity == rep && rep == representations[idx1]
+//@   loop 1: invariant calls(Error) <= idx1
+//@   ensures calls(Error) <= len(representations)
+
+// The result list has one slot per representation; groups are joined: one Done per spawned group.
+//@ family fedentities [C20,C05]
+//@   gosafe
+//@   goensures calls(Done) == 1 && calls(resolveEntityGroup) == 1
+//@   at `ec.resolveEntityGroup(ctx, typeName, reps, list)` requires len(arg3) == len(representations)
+//@   ensures len(res0) == len(representations)
+
+// Single resolvers: each spawned closure writes at most ONE slot, the one of its own representation, and only when
+// its resolver succeeded; otherwise it reports exactly one error. One goroutine and one Done per representation.
+//@ family fedismulti [C20]
+//@   nopanic
+//@   pure
+//@   ensures calls(isMulti) == 0
+//@ family fedgroup [C20,C05,C04]
+//@   noescape
+//@   gosafe
+//@   ghost added = 0
+//@   at `e.Add(len(reps))` requires arg0 == len(reps)
+//@   at `e.Add(len(reps))` ghost added = arg0
+//@   at! `assign list[*]` requires idx == rep.index && err == nil && rhs0 == entity
+//@   loop 1: invariant calls(spawn) == idx1 && added == len(reps)
+//@   at `e.Wait()` requires calls(spawn) == added
+//@   goensures calls(Done) == 1 && calls(resolveEntity) == 1
+//@   goensures calls(Error) <= 1
+
+// resolveEntity / resolveManyEntities run on spawned goroutines: they do their own panic handling.
+//@ family fedentity [C20,C04]
+//@   noescape
+//@   ensures panicked ==> calls(Recover) == 1
+//@ family fedmany [C20,C04]
+//@   noescape
+//@   ensures panicked ==> calls(Recover) == 1
+//@   at `assign list[*]` requires idx == reps[i].index && len(typedReps) == len(reps)
+
+// A resolver is selected only if not ALL of its key fields are null: the flag can only stay true, never become
+// true again after a non-null key field was seen.
+//@ family fedresolvername [C20]
+//@   ghost an = true
+//@   at `assign allNull` requires rhs0 ==> allNull
+//@   at `assign allNull` ghost an = rhs0
+//@   ensures res1 == nil ==> !an
